@@ -15,7 +15,7 @@ RULE = ("evaluation = one method call on a receiver held in a run-time variable;
         "meaning (the repository's string_properties / number_properties tests are the documentation): in the domain the typed-print "
         "kind and value must match, outside the domain the run must stop with a failure. Non-trivial = an argument or receiver at a "
         "domain edge (0, len, extreme, radix bound, empty string); distinct by (method, receiver, arguments)")
-ASSUMPTIONS = ["index-taking string methods are generated on ASCII receivers only (byte and character units coincide); len() of multi-byte text may count bytes or characters",
+ASSUMPTIONS = ["text positions: len(), the result of index_of and the offsets of substring / insert / delete / split are UTF-8 byte offsets (an offset inside a character is outside the domain and must fail); `s[i]` counts characters - both as the interpreter's own range errors describe them",
                "float results of pow / powf / sqrt are compared with relative tolerance 1e-12; all other floats by exact value",
                "parse_* inputs with a 0x / 0b prefix are generated only where the repository's tests document the meaning (parse_byte)",
                "dev-profile build"]
@@ -63,41 +63,51 @@ def parse_int_like(s, radix, lo, hi):
 
 # ---- models: each returns (kind, text) | ("nil","nil") | ("float", value) and may raise Fail -------------------------------
 def m_str(method, s, args):
+    """unit semantics of text positions (recorded in ASSUMPTIONS): len(), the result of index_of and the offsets taken by
+    substring / insert / delete / split are UTF-8 byte offsets - an offset that falls inside a character is outside the
+    domain; `s[i]` counts characters (the interpreter's own range error reports `len N chars, M bytes`)"""
     a = [x.v if isinstance(x, Num) else x for x in args]
-    n = len(s)
+    b = s.encode("utf-8")
+    n = len(b)
+
+    def boundary(i):
+        return 0 <= i <= n and (i == n or (b[i] & 0xC0) != 0x80)
+    cut = lambda lo, hi: b[lo:hi].decode("utf-8")
     if method == "len":
         return ("int", str(n))
     if method == "substring":
         lo, hi = a
-        if not (0 <= lo <= hi <= n):
+        if not (0 <= lo <= hi <= n and boundary(lo) and boundary(hi)):
             raise Fail("range")
-        return out_str(s[lo:hi])
+        return out_str(cut(lo, hi))
     if method == "contains":
         return ("bool", "true" if a[0] in s else "false")
     if method == "index_of":
-        i = s.find(a[0])
+        i = b.find(a[0].encode("utf-8"))
         return ("nil", "nil") if i < 0 else ("int", str(i))
     if method == "reverse":
         return out_str(s[::-1])
     if method == "insert":
         new, at = a
-        if not (0 <= at <= n):
+        if not (0 <= at <= n and boundary(at)):
             raise Fail("range")
-        return out_str(s[:at] + new + s[at:])
+        return out_str(cut(0, at) + new + cut(at, n))
     if method == "replace":
         if a[0] == "":
             raise Fail("unmodelled")       # empty pattern: no documented meaning; not generated
         return out_str(s.replace(a[0], a[1]))
     if method == "delete":
         lo, hi = a
-        if not (0 <= lo <= hi <= n):
+        if not (0 <= lo <= hi <= n and boundary(lo) and boundary(hi)):
             raise Fail("range")
-        return out_str(s[:lo] + s[hi:])
+        return out_str(cut(0, lo) + cut(hi, n))
     if method == "split":
         mid = a[0]
         if mid < 0 or mid >= n:
             return out_list([s, ""])
-        return out_list([s[:mid], s[mid:]])
+        if not boundary(mid):
+            raise Fail("range")
+        return out_list([cut(0, mid), cut(mid, n)])
     if method == "chars":
         return out_list(list(s))
     if method == "parse_int":
@@ -135,7 +145,7 @@ def m_str(method, s, args):
         return out_str(s + a[0])
     if method == "index":
         i = a[0]
-        if not (0 <= i < n):
+        if not (0 <= i < len(s)):       # characters, not bytes
             raise Fail("range")
         return out_str(s[i])
     raise ValueError(method)
@@ -210,6 +220,10 @@ def m_num(method, x, args):
         return ("float~", math.sqrt(f))
     if method in ("floor", "ceil", "round", "ipart", "fpart"):
         f = float(v)
+        if f != f or f in (math.inf, -math.inf):
+            if method == "fpart":
+                raise Fail("unmodelled")
+            return ("float", f)
         r = {"floor": math.floor, "ceil": math.ceil, "round": rust_round, "ipart": math.trunc, "fpart": lambda z: z - math.trunc(z)}[method](f)
         return ("float", float(r))
     if method == "to_str":
@@ -240,6 +254,11 @@ def call_src(recv_var, method, args):
 
 def recv_decl(name, recv, call=None):
     if isinstance(recv, Num):
+        if recv.k == "float" and recv.v != recv.v:             # NaN is only reachable through an operation
+            return ["%s_m: float = 1.0" % name, "%s_z: float = 0.0" % name, "%s: float = (%s_z - %s_m).sqrt()" % (name, name, name)]
+        if recv.k == "float" and recv.v in (math.inf, -math.inf):
+            out = ["%s_b: float = 1%s.0" % (name, "0" * 200), "%s_i: float = %s_b * %s_b" % (name, name, name)]
+            return out + (["%s: float = %s_i" % (name, name)] if recv.v > 0 else ["%s_z: float = 0.0" % name, "%s: float = %s_z - %s_i" % (name, name, name)])
         return num.init_stmts(name, recv)
     out = ["%s = %s" % (name, ms.str_lit(recv))]
     if call is not None and call[0] == "index":
@@ -321,8 +340,6 @@ def make_scenario(calls):
         if res[0] != "fail":
             if res[0] == "float~":
                 approx.append(line)
-            if c[0] == "len" and isinstance(c[1], str) and any(ord(ch) > 127 for ch in c[1]):
-                alts[str(line)] = ["int:%d" % len(c[1]), "int:%d" % len(c[1].encode("utf-8"))]
             line += 1
     failing = any(model(c)[0] == "fail" for c in calls)
     return scenario.simple(src, [{"id": "run", "argv": ["mscript", "run", "main.ms", "-q"], "env": ENV}],
@@ -387,18 +404,18 @@ def check(case):
 
 
 ASCII = ["", "a", "ab", "hello world", "aXbXc", "12", "  "]
-MULTI = ["é", "日本語", "a😀b"]
+MULTI = ["é", "日本語", "a😀b", "héllo wörld", "añb"]
 IDX = [-1, 0, 1, 2]
 
 
 def str_calls(strings, full):
     out = []
     for s in strings:
-        n = len(s)
-        idx = sorted(set(IDX + [n - 1, n, n + 1]))
-        ascii_only = all(ord(c) < 128 for c in s)
+        n, nb = len(s), len(s.encode("utf-8"))
+        idx = sorted(set(IDX + [n - 1, n, n + 1, nb - 1, nb, nb + 1] + ([3, 4, 7] if nb > n else [])))
+        ascii_only = True        # index-taking methods are generated for every receiver (multi-byte: see m_str)
         out += [("len", s, []), ("reverse", s, []), ("chars", s, [])]
-        for p in ["", "a", "X", "lo w", "é", s]:
+        for p in ["", "a", "X", "lo w", "é", "l", "w", s]:
             out.append(("contains", s, [p]))
             if ascii_only:
                 out.append(("index_of", s, [p]))
@@ -450,6 +467,9 @@ def num_calls(tier):
                 out.append((m, x, []))
         if x.k == "byte" and x.v <= 127:
             out.append(("to_ascii", x, []))
+    for v in (math.nan, math.inf, -math.inf):        # non-finite receivers: conversions must fail, the rest propagates
+        for m in ("to_int", "to_bigint", "to_byte", "to_float", "abs", "to_str", "floor", "ceil", "round", "ipart"):
+            out.append((m, Num("float", v), []))
     return out
 
 
@@ -466,13 +486,13 @@ def enumerated(tier, seed):
 def random_case(draw):
     g = G(draw)
     if g.chance(55):
-        s = draw(st.text(alphabet="abcXY z01-+.", max_size=8))
-        n = len(s)
+        s = draw(st.text(alphabet="abcXY z01-+." if g.chance(70) else "abXé日😀 z", max_size=8))
+        n = len(s.encode("utf-8"))
         method = g.choice(["substring", "delete", "insert", "split", "index", "index_of", "contains", "replace", "reverse", "chars", "repeat", "len",
                            "parse_int", "parse_float", "parse_int_radix", "parse_byte", "parse_bigint"])
         ix = lambda: I(g.int(-1, n + 1))
         args = {"substring": lambda: [ix(), ix()], "delete": lambda: [ix(), ix()], "insert": lambda: [draw(st.text(alphabet="ab", max_size=2)), ix()],
-                "split": lambda: [ix()], "index": lambda: [ix()], "index_of": lambda: [draw(st.text(alphabet="abcXY z", max_size=2))],
+                "split": lambda: [ix()], "index": lambda: [ix()], "index_of": lambda: [draw(st.text(alphabet="abcXY zé", max_size=2))],
                 "contains": lambda: [draw(st.text(alphabet="abcXY z", max_size=2))], "replace": lambda: [draw(st.text(alphabet="abcXY z", min_size=1, max_size=2)), draw(st.text(alphabet="ab", max_size=2))],
                 "repeat": lambda: [I(g.int(-1, 4))], "parse_int_radix": lambda: [I(g.int(0, 38))]}.get(method, lambda: [])()
         if method.startswith("parse") and (s.startswith("0x") or s.startswith("0b")):
